@@ -169,7 +169,7 @@ Proof.
   rewrite !trace_nouf_app in Nf. apply andb_true_iff in Nf. destruct Nf as [Nf _]. apply andb_true_iff in Nf. destruct Nf as [_ Nc].
   unfold trace_nouf in Nc. simpl in Nc. rewrite andb_true_r in Nc.
   (* the pass shrinks the potential *)
-  destruct (step_covers (li_next i) a0 a1 e B0 B1 Be Dj _ _ _ st c g ast U Cl An Wu Wa) as (_ & _ & _ & C4 & C5).
+  destruct (step_covers (li_next i) a0 a1 e B0 B1 Be Dj _ _ _ st c g ast U Cl An Wu Wa) as (_ & _ & _ & C4 & C5 & _).
   destruct (pass_frame (li_next i) a1 e B1 Be _ true st U) as [L _].
   assert (Be' : Axis_antiunify_inv.below (us_next st) e) by (apply below_same; eapply below_mono; [exact L|exact Be]).
   assert (Bc' : Axis_antiunify_inv.below (us_next st) c) by (apply below_same; exact (step_clone_below (li_next i) a0 a1 e B0 B1 Be _ _ st c U Cl)).
